@@ -182,7 +182,26 @@ def c08_shapes(tier):
                     out += [(q, c, p, l) for l in (1, 2, 3, 4)]
     return out
 
+def c17_shapes(tier):
+    if tier == 'quick':
+        return {'geo': [(2, 3), (6, 5), (0, 3), (4, 4), (1, 1), (3, 2)], 'thr': [(1, 3), (4, 5), (6, 5)]}
+    return {'geo': [(a, b) for a in range(7) for b in range(6)], 'thr': [(1, 3), (2, 3), (4, 5), (6, 5), (1, 2), (3, 4)]}
+
 PROPS = {
+    'C17': {
+        'level': 'model_checking',
+        'bounds': '(a) every (sample_count_total, interval_ms_total) from {0,1,2,3,4,6,20} x {0,1,500,1000,1500,10000} as shapes (quick: six of them), the default metric (sample_count, interval_ms) symbolic over the same grids: '
+                  'validation result compared with a reference servability predicate; if accepted a node is created and one write / one read at symbolic times (t0 over two intervals, gap in [0, 2 interval]) must follow the configured geometry; '
+                  'if rejected init_with_config must fail. (b) configuration installed in one thread, read in a thread spawned afterwards (thread runs at its spawn point). YAML text is not covered (serde_yaml is outside the encoding)',
+        'assumptions': ['configuration installed through ConfigEntity + reset_global_config (init_with_config is only driven on the rejecting path, it starts collector threads otherwise)',
+                        'the spawned thread is executed sequentially at its spawn point (one legal schedule; the property part (b) does not depend on interleaving)'],
+        'scenarios': [
+            {'name': 'c17_geometry', 'shapes': {'quick': c17_shapes('quick')['geo'], 'thorough': c17_shapes('thorough')['geo']},
+             'witnesses': ['accepted', 'rejected'], 'selftest': {'quick': 8, 'thorough': 40}},
+            {'name': 'c17_threads', 'shapes': {'quick': c17_shapes('quick')['thr'], 'thorough': c17_shapes('thorough')['thr']},
+             'witnesses': ['other-thread'], 'selftest': {'quick': 3, 'thorough': 6}},
+        ],
+    },
     'C08': {
         'level': 'model_checking',
         'bounds': 'inductive steps of the real warm-up calculator from an arbitrary state: stored tokens in [0, max_token], one time step of 0..2p+2 s (idle lemma: 2p..5p s) at any millisecond phase, '
